@@ -13,7 +13,7 @@ def drive_and_judge(work, binary, runs, mode, name, racebin=None, test='TestTunn
     """Runs the schedules (in parallel chunks), validates every trace with TLC.
     Returns dict(bad, notes, info, events, states, runs_ok)."""
     parts = chunks(runs, vlib.NCPU if mode == 'bubble' else max(2, vlib.NCPU // 2))
-    res = dict(bad=[], notes=[], crashes=[], hangs=[], races=[], stuck=[], events=0, states=0, gen=0, traces={}, validated=0)
+    res = dict(bad=[], notes=[], crashes=[], hangs=[], races=[], stuck=[], events=0, states=0, gen=0, traces={}, validated=0, trace_files=[])
 
     def one(ix):
         part = parts[ix]
@@ -44,6 +44,7 @@ def drive_and_judge(work, binary, runs, mode, name, racebin=None, test='TestTunn
         res['events'] += o['nev']
         res['states'] += o['states']
         res['gen'] += o['gen']
+        res['trace_files'].append(o['trace'])
     res['validated'] = len(runs) - len(res['stuck'])
     return res
 
@@ -58,6 +59,70 @@ def witness(b):
             sched = r
     trace = vlib.split_trace(b['trace']).get(run, [])
     return dict(kind='schedule', run=sched, trace=trace[:4000], tags=b['tags'], at_event=b['n'])
+
+
+CONF_STATS = {}
+
+
+def conformance(runs, res):
+    """Compares, for every TLC-generated behaviour, the observable client events the specification predicted
+    with the events the real client produced when driven along the same environment choices (grouped per
+    instant, order within an instant ignored). Returns (equal, compared, first differences)."""
+    pred = {r['run']: r['predicted'] for r in runs if 'predicted' in r}
+    # a behaviour is reproducible up to its cut-off at the simulation depth and up to the first choice made
+    # INSIDE the client (several acknowledgements on offer, several timers due at one instant)
+    ends = {r['run']: min(r.get('pred_end', 1 << 60), r['choice'] if r.get('choice') is not None else 1 << 60) for r in runs}
+    if not pred:
+        return 0, 0, []
+    traces = {}
+    for path in set(b for b in res.get('trace_files', [])):
+        traces.update(vlib.split_trace(path))
+    equal = compared = partial = nevents = 0
+    diffs = []
+    for rid, p in pred.items():
+        lines = traces.get(rid)
+        if lines is None:
+            continue
+        got = []
+        missing = None
+        cut = ends.get(rid, 1 << 60)
+        for l in lines:
+            e = json.loads(l)
+            if e['k'] == 'Teardown':
+                break
+            if e['k'] in ('Skip', 'Delayed'):
+                # the schedule was not applicable from here on (a restriction of the virtual-time driver): compared
+                # up to this instant only. A datagram the specification expected in the network and the real run
+                # does not have is itself a difference.
+                if e['k'] == 'Skip' and e['s'].startswith('net:') and e['t'] < cut and missing is None:
+                    missing = e
+                cut = min(cut, e['t'])
+            if e['k'] in ('Out', 'In', 'SendRet', 'Recv', 'CloseRet') and e.get('s') != 'teardown':
+                got.append([e['t'], e['k'], e['svc'], e['ch'], e['seq'], e['st'] if e['k'] != 'SendRet' else e['s']])
+        if cut < ends.get(rid, 1 << 60):
+            partial += 1
+        compared += 1
+        key = lambda x: (x[0], json.dumps(x[1:]))
+        # ConnReq carries the attempt number in seq only in the specification; sequence numbers are compared
+        # modulo the model's modulus (the real client counts modulo 256)
+        M = 4
+        norm = lambda xs: sorted(([x[0], x[1], x[2], x[3], -1 if x[2] == 'ConnReq' or x[4] < 0 else x[4] % M, x[5]] for x in xs), key=key)
+        # the behaviour is cut at the simulation depth: its last instant may lack the client's own (urgent) steps
+        end = cut
+        a, b = [x for x in norm(p) if x[0] < end], [x for x in norm(got) if x[0] < end]
+        nevents += len(a)
+        if a == b and missing is not None:
+            if len(diffs) < 8:
+                diffs.append(dict(run=rid, t=missing['t'], predicted=['a datagram in the network for step %d' % missing['a']], real=[missing['s']]))
+        elif a == b:
+            equal += 1
+        elif len(diffs) < 8:
+            ts = sorted(set(x[0] for x in a) | set(x[0] for x in b))
+            t0 = next(t for t in ts if [x for x in a if x[0] == t] != [x for x in b if x[0] == t])
+            diffs.append(dict(run=rid, t=t0, predicted=[x[1:] for x in a if x[0] == t0], real=[x[1:] for x in b if x[0] == t0]))
+    CONF_STATS['events'] = nevents
+    CONF_STATS['partial'] = partial
+    return equal, compared, diffs
 
 
 def sample_of(run):
